@@ -50,7 +50,9 @@ def load_seeded(prop: str) -> List[dict]:
         exp = json.load(fh)
     out = []
     for sid, e in sorted(exp.items()):
-        if e.get('check', sid.split('-')[0]) != prop:
+        # a behaviour-preserving refactoring (`silent`) is also replayed against the other checks that fired on it at first
+        # contact (`also`): those are the false alarms that were fixed and must stay fixed
+        if e.get('check', sid.split('-')[0]) != prop and prop not in e.get('also', ()):
             continue
         out.append(dict(id='seeded-' + sid, prop=prop, patch=os.path.join(base, sid, 'patch.diff'), expect=e['expect'], rule=e.get('rule')))
     return out
